@@ -307,6 +307,25 @@ theorem tuneGa_valid (laws : ProbLaws P) (L : Nat) (hL : L ≠ 0) (term0 : Nat) 
 
 end
 
+section
+variable {P : Type} [ProbOps P]
+
+inductive SearchKind | base | src | ga
+deriving Repr, DecidableEq
+
+/-- the three `tune_parameters` -/
+def tune (kind : SearchKind) (lnF cubeF : Nat → Nat) (esLayers term0 dsize : Nat) (u : Env P) : Env P :=
+  match kind with
+  | .base => tuneBase (Env.dflt esLayers) term0 u
+  | .src  => tuneSrc lnF cubeF (Env.dflt esLayers) term0 dsize u
+  | .ga   => tuneGa (Env.dflt esLayers) term0 u
+
+def strategyFloor : SearchKind → Nat
+  | .ga => 10
+  | _ => 0
+
+end
+
 /-! ### the parameters this model covers, by their names in environment.h
 
 Compared (Props.lean, `tune_tables_cover_source`) with the lists tools/translate_tune.py extracts
